@@ -18,7 +18,7 @@ from .C10 import abstract_network
 P = 'C17'
 R = 'pymoto.routines'
 
-LAYOUTS = {'one_array': ['a'], 'two_arrays': ['a', 'a'], 'three_unequal': ['a', 'a', 'a']}
+LAYOUTS = {'one_array': ['a'], 'two_arrays': ['a', 'a'], 'three_unequal': ['a', 'a', 'a'], 'two_signals_one_initial_array': ['a', 'alias']}
 
 for _lay, _bk in itertools.product(LAYOUTS, ('scalar', 'per_variable')):
     @harness(P, f'minimize_oc.update[{_lay},bounds={_bk}]', targets=[f'{R}:minimize_oc', f'{R}:obtain_sensitivities', 'pymoto.utils:_concatenate_to_array'], timeout=60000)
@@ -29,6 +29,11 @@ for _lay, _bk in itertools.product(LAYOUTS, ('scalar', 'per_variable')):
         kinds = LAYOUTS[lay]
         lens, sigs, FX = [], [], []
         for k, kind in enumerate(kinds):
+            if kind == 'alias':
+                # a second design signal initialised with the SAME array object as the first (x0 = np.full(n, v); Signal(.., x0), Signal(.., x0))
+                lens.append(lens[0]); FX.append(FX[0])
+                sigs.append(mk_signal(it, it.getattr(sigs[0], 'state')))
+                continue
             nk = ctx.sym(f'n{k}')
             ctx.assume(nk >= 1)
             st, F = arr(ctx, f'x{k}', (nk,))
@@ -38,6 +43,7 @@ for _lay, _bk in itertools.product(LAYOUTS, ('scalar', 'per_variable')):
         for l in lens:
             offs.append(V.add(offs[-1], l))
         ntot = offs[-1]
+        init_states = [it.getattr(s_, 'state') for s_ in sigs]
         obj = mk_signal(it, ctx.sym('f', 'real'))
         ctx.assume(ctx.sym('f', 'real') != 0)
         log = []
@@ -78,6 +84,7 @@ for _lay, _bk in itertools.product(LAYOUTS, ('scalar', 'per_variable')):
             xn, XN = arr(c, f'xnew_{phase}', (ntot,))
             env.vars['xnew'] = xn
             state['has_xnew'] = True
+            state['XN_' + phase] = XN
 
         def inv(c, env, phase):
             l1, l2 = env.vars['l1'], env.vars['l2']
@@ -99,6 +106,8 @@ for _lay, _bk in itertools.product(LAYOUTS, ('scalar', 'per_variable')):
             c.prove('bisection.exit_bracket_within_tolerance', V.zreal(env.vars['l2']) - V.zreal(env.vars['l1']) <= tol, kind='loop')
         it.loop_specs[(f'{R}:minimize_oc', 0)] = LoopSpec('bisection', havoc, inv, executes_at_least_once=True, on_exit=on_exit)
         ctx.safety_on = False
+        wx = it.watches.setdefault(f'{R}:minimize_oc', {})
+        wx['xval'] = []
         it.call(it.get_function(f'{R}:minimize_oc'), [net, list(sigs), obj], dict(maxit=1, tolx=0, tolf=0, xmin=xmin, xmax=xmax, move=move, l1init=l1i, l2init=l2i,
                                                                                l1l2tol=tol, maxvol=maxvol, verbosity=0))
         ran = [e for e in log if e[0] == 'sensitivity']
@@ -118,5 +127,8 @@ for _lay, _bk in itertools.product(LAYOUTS, ('scalar', 'per_variable')):
             xo = FX[k](t)
             xn = V.zreal(new.at(t))
             ctx.prove(f'writeback.length[{k}]', V.cmp('==', new.shape[0], lens[k]))
+            if 'XN_exit' in state and len(wx['xval']) >= 2:       # `xval = xnew` was executed: not the path that stops on the step-size criterion
+                # exactly its own slice of the design the bisection ended with - also when several signals started from one shared array
+                ctx.prove(f'writeback.own_slice[{k}]', V.cmp('==', xn, state['XN_exit'](V.zint(j))))
             ctx.prove(f'within_bounds[{k}]', z3.And(xn >= V.zreal(LO(j)), xn <= V.zreal(HI(j))))
             ctx.prove(f'within_move_limit[{k}]', z3.And(xn >= xo - move, xn <= xo + move))
